@@ -171,10 +171,11 @@ fn run(ctx: &mut Ctx) {
                     continue;
                 }
                 let all = placements(t, n);
-                let chosen: Vec<Vec<u64>> = if !quick || all.len() <= 2 {
+                let cap = if quick { 2 } else { 24 };
+                let chosen: Vec<Vec<u64>> = if all.len() <= cap {
                     all
                 } else {
-                    (0..2).map(|_| random_placement(&mut rng, t, n)).collect()
+                    (0..cap).map(|_| random_placement(&mut rng, t, n)).collect()
                 };
                 let reps = if quick || np == 0 { 1 } else { 2 };
                 for qs in chosen {
